@@ -289,6 +289,13 @@ def run(case):
         ok, rr = call(out, "pixels2resolution", lambda: cryomap.pixels2resolution(r, n, px, print_out=False))
         if ok:
             out.check(abs(rr - n * px / r) <= 1e-12 * rr, "resolution:pixels2resolution", f"{rr}")
+    # exact ties of round(box * pixel_size / resolution): with a power-of-two resolution the quotient k + 0.5 is an exact double,
+    # so the statement's round() (the language's: ties to the even neighbour) decides them without any tolerance
+    n_t, px_t, res_t = [(28, 1.0, 8.0), (20, 1.0, 8.0), (44, 1.0, 8.0), (12, 1.0, 8.0), (36, 1.0, 8.0), (22, 2.0, 8.0), (30, 1.0, 4.0), (10, 2.0, 8.0), (26, 1.0, 4.0), (46, 0.5, 2.0)][case["seed"] % 10]
+    ok, p_t = call(out, "resolution2pixels", lambda: cryomap.resolution2pixels(res_t, n_t, px_t, print_out=False))
+    if ok:
+        out.label("resolution_tie")
+        out.check(p_t == round(n_t * px_t / res_t), "resolution:tie_not_rounded_as_round_does", f"box {n_t} pixel size {px_t} resolution {res_t}: {p_t} vs round({n_t * px_t / res_t}) = {round(n_t * px_t / res_t)}")
     # resolution route, any shape: complement and band relations must hold whatever 'box' means for a non-cubic map
     if "res_any" in case:
         px, res = case["res_any"]["pixel_size"], case["res_any"]["resolution"]
